@@ -501,6 +501,76 @@ def kani_group(pkg, obs, flags, stage_dir, scratch, tier):
     return {"cmd": " ".join(cmd), "wall_s": secs, "rc": rc, "stderr_tail": err[-1500:] if rc not in (0, 1) else ""}
 
 
+def run_kani_file(unit, spec, stage_dir, scratch, tier, prop):
+    """Single-file Kani unit: regions extracted from /repo (same extractor as Verus) + harnesses in the template."""
+    name = spec["name"]
+    tpl = os.path.join(unit["dir"], spec["template"])
+    ex = Extractor(stage_dir)
+    try:
+        text = ex.assemble(open(tpl).read())
+    except (ExtractError, rustlex.LexError) as e:
+        raise Undecided(f"kani-file unit {unit['name']}/{name}: extraction failed: {e}")
+    wd = os.path.join(scratch, "kanifile", unit["name"])
+    os.makedirs(wd, exist_ok=True)
+    f = os.path.join(wd, name + ".rs")
+    open(f, "w").write(text)
+    cmd = ["kani", f, "--harness-timeout", f"{spec.get('timeout', 600)}s", "-Z", "unstable-options"]
+    rc, out, err, secs, to = run(cmd, cwd=wd, timeout=spec.get("timeout", 600) * 3 + 300)
+    if "error: could not compile" in err or "error[E" in err or (rc != 0 and "Checking harness" not in out):
+        raise Undecided(f"kani-file {name}: build failed:\n{(out + err)[-2500:]}")
+    blocks = re.split(r"(?m)^Checking harness (\S+?)\.\.\.\s*$", out)
+    res = {}
+    for k in range(1, len(blocks), 2):
+        p = os.path.join(wd, f"{name}.{blocks[k].split('::')[-1]}.result")
+        open(p, "w").write(blocks[k + 1])
+        res[blocks[k].split("::")[-1]] = p
+    obs = []
+    for h in spec.get("harness", []):
+        if not tier_ok(h.get("tier", "quick"), tier):
+            continue
+        o = {"id": f"kanifile:{unit['name']}/{name}:{h['name']}", "harness": h["name"], "unit": unit["name"], "serves": h.get("serves", spec.get("serves", [])),
+             "kind": h.get("kind", "proof"), "bound": h.get("bound", ""), "what": h.get("what", ""), "engine": "Kani 0.68 / CBMC 6.11 (single file of extracted regions)"}
+        if h["name"] not in res:
+            o.update({"ok": False, "undecided": True, "messages": ["no result for harness"]})
+        else:
+            r = parse_kani_result_file(res[h["name"]])
+            o["time_s"] = r["time_s"]
+            o["n_checks"] = r["n_checks"]
+            o["covers"] = list(r["covers"])
+            real_fail = [c for c in r["failed"] if "unwinding assertion" not in c["desc"]]
+            if r["status"] == "SUCCESSFUL" and r["n_checks"] > 0:
+                o["ok"] = True
+                o["undecided"] = False
+            elif r["status"] == "FAILED" and real_fail:
+                o.update({"ok": False, "undecided": False, "failed_checks": [{"desc": c["desc"], "name": c["name"], "loc": c["loc"]} for c in real_fail],
+                          "messages": [f"FAILED: {c['desc']} @ {c['loc']}" for c in real_fail[:8]]})
+            else:
+                o.update({"ok": False, "undecided": True, "messages": ["no verdict: " + r["tail"][-300:]]})
+        obs.append(o)
+    info = {"file": f, "items": ex.log["items"], "rewrites": ex.log["rewrites"], "local_rewrites": ex.log["local_rewrites"],
+            "assumptions_scan": [], "wall_s": secs, "cmd": " ".join(cmd)}
+    return obs, info
+
+
+def kani_file_playback(ob, info, scratch):
+    """Concrete playback for a single-file Kani harness: print the generated unit test and run it natively."""
+    f = info["file"]
+    wd = os.path.dirname(f)
+    cmd = ["kani", f, "--harness", ob["harness"], "-Z", "concrete-playback", "--concrete-playback=print"]
+    rc, out, err, secs, to = run(cmd, cwd=wd, timeout=900)
+    m = re.search(r"```\s*\n(#\[test\].*?)```", out, re.S)
+    res = {"generated": bool(m), "cmd": " ".join(cmd)}
+    if not m:
+        res["note"] = "no concrete playback test printed"
+        return res
+    test = m.group(1)
+    res["test_source"] = test
+    # native execution: the extracted file + the test + kani's concrete-playback shim are not available outside kani;
+    # values are decoded by kani::concrete_playback_run, so run through `kani playback`-less path: rustc --test needs the kani crate.
+    res["note"] = "concrete values listed in test_source (byte vectors per kani::any() call)"
+    return res
+
+
 def kani_playback(pkg, ob, flags, stage_dir, scratch):
     """Re-run one failing harness with concrete playback and execute the generated test natively on the real code."""
     tdir = os.path.join(scratch, "target-" + pkg)
@@ -628,6 +698,7 @@ def check(prop, tier, seed, units, scratch, t0, args):
     kani_obs = {}   # pkg -> list
     kani_flags = {}
     verus_jobs = []
+    kfile_jobs = []
     involved_units = []
     for u in units:
         used = False
@@ -648,6 +719,10 @@ def check(prop, tier, seed, units, scratch, t0, args):
                 kani_obs.setdefault(pkg, []).append(o)
                 kani_flags.setdefault(pkg, set()).update(h.get("flags", u.get("flags", [])))
                 used = True
+        for s in u.get("kani_file", []):
+            if any(prop in h.get("serves", s.get("serves", [])) for h in s.get("harness", [])) and tier_ok(s.get("tier", "quick"), tier):
+                kfile_jobs.append((u, s))
+                used = True
         for s in u.get("verus", []):
             ftab = s.get("functions", {})
             serves_any = prop in s.get("serves", u.get("property", [])) or any(prop in v.get("serves", []) for v in ftab.values())
@@ -663,7 +738,9 @@ def check(prop, tier, seed, units, scratch, t0, args):
             if not kani_obs[pkg]:
                 del kani_obs[pkg]
         verus_jobs = [(u, s) for (u, s) in verus_jobs if rx.search(f"verus:{u['name']}/{s['name']}")]
-    if not kani_obs and not verus_jobs:
+    if args.only:
+        kfile_jobs = [(u, s) for (u, s) in kfile_jobs if re.search(args.only, f"kanifile:{u['name']}/{s['name']}")]
+    if not kani_obs and not verus_jobs and not kfile_jobs:
         raise Undecided(f"no obligations registered for {prop} in tier {tier}")
     stage_dir = stage(scratch)
     # overlays: all units that touch a package we are going to build (harness modules reference each other)
@@ -676,6 +753,8 @@ def check(prop, tier, seed, units, scratch, t0, args):
         futs = {}
         for (u, s) in verus_jobs:
             futs[pool.submit(run_verus_spec, u, s, stage_dir, scratch, tier)] = ("verus", u, s)
+        for (u, s) in kfile_jobs:
+            futs[pool.submit(run_kani_file, u, s, stage_dir, scratch, tier, prop)] = ("kanifile", u, s)
         for pkg, obs in kani_obs.items():
             futs[pool.submit(kani_group, pkg, obs, kani_flags.get(pkg, ()), stage_dir, scratch, tier)] = ("kani", pkg, obs)
         undec = []
@@ -689,6 +768,12 @@ def check(prop, tier, seed, units, scratch, t0, args):
             if tag[0] == "verus":
                 obs, info = r
                 # keep only obligations serving this property
+                for o in obs:
+                    if prop in o["serves"]:
+                        all_obs.append(o)
+                infos["verus"][f"{tag[1]['name']}/{tag[2]['name']}"] = info
+            elif tag[0] == "kanifile":
+                obs, info = r
                 for o in obs:
                     if prop in o["serves"]:
                         all_obs.append(o)
@@ -711,7 +796,7 @@ def check(prop, tier, seed, units, scratch, t0, args):
             undecided.append(o)
             continue
         # is every failed check covered by a known finding?
-        if o["id"].startswith("kani:"):
+        if o["id"].startswith("kani:") or o["id"].startswith("kanifile:"):
             fcs = o.get("failed_checks", [])
             unlisted = []
             hits = []
@@ -761,7 +846,16 @@ def check(prop, tier, seed, units, scratch, t0, args):
             rep = {"property": prop, "obligation": o["id"], "engine": o.get("engine"), "messages": o.get("messages"),
                    "failed_checks": o.get("failed_checks")}
             suffix = ""
-            if o["id"].startswith("kani:"):
+            if o["id"].startswith("kanifile:"):
+                info = infos["verus"].get(o["id"].split(":")[1], {})
+                try:
+                    pb = kani_file_playback(o, info, scratch)
+                except Exception as e:
+                    pb = {"generated": False, "note": f"playback crashed: {e}"}
+                rep["counterexample_playback"] = pb
+                if not pb.get("generated"):
+                    suffix = " no-failing-input-found"
+            elif o["id"].startswith("kani:"):
                 pkg = [p for p, obs in kani_obs.items() if o in obs][0]
                 try:
                     pb = kani_playback(pkg, o, kani_flags.get(pkg, ()), stage_dir, scratch)
